@@ -38,7 +38,12 @@ class Listener(threading.Thread):
                 c.close()
 
 
-def build_app(prot, relaxed=False, validator=None):
+OPTS = {'none': {}, 'blank': dict(remove_blank_text=True), 'blank_nodtd': dict(remove_blank_text=True, load_dtd=False),
+        'nsclean': dict(ns_clean=True, compact=False), 'keep_pis_cdata': dict(remove_pis=False, strip_cdata=False),
+        'poly_nocleanup': dict(polymorphic=True, cleanup_namespaces=False, pretty_print=True)}
+
+
+def build_app(prot, relaxed=False, validator=None, opts='none'):
     from spyne import Application, Service, srpc, ComplexModel, Unicode, Integer, Array, XmlAttribute, AnyXml
     from lxml import etree as _et
     from spyne.protocol.xml import XmlDocument
@@ -61,6 +66,7 @@ def build_app(prot, relaxed=False, validator=None):
     kw = dict(resolve_entities=True, load_dtd=True, attribute_defaults=True, no_network=False, huge_tree=True) if relaxed else {}
     if validator:
         kw['validator'] = validator
+    kw.update(OPTS[opts])
     app = Application([Svc], 'tns', in_protocol=P(**kw), out_protocol=P())
 
     def count_nodes(ctx):
@@ -262,9 +268,9 @@ def main():
             out['text'] = out['text'][:300]
             res.append({'what': 'attack', 'n': n, 'a': a, 'out': out, 'request': doc[:400]})
             continue
-        key = (a['prot'], a.get('validator', 'none'))
+        key = (a['prot'], a.get('validator', 'none'), a.get('opts', 'none'))
         if key not in apps:
-            apps[key] = build_app(a['prot'], validator='lxml' if a.get('validator') == 'lxml' else None)
+            apps[key] = build_app(a['prot'], validator='lxml' if a.get('validator') == 'lxml' else None, opts=a.get('opts', 'none'))
         app, wsgi, seen = apps[key]
         prolog, body = document(a, canary, dtd, lst.port)
         doc, ct = frame(a, prolog, body)
